@@ -14,8 +14,8 @@ generated table itself (over the whole table).
 
 Reading of the omit case (`--omit-serialization-support`): no support header exists then, so there is nothing a
 type header could be inconsistent with and C17 makes no claim.  The model records what the templates do
-(`C17_pod_headers`): C++ type headers carry no option assertion, C type headers still do (DESIGN F10 — a C06
-matter: such a header does not compile on its own).
+(`C17_pod_headers`): POD type headers of neither language carry option assertions (C since the repair of DESIGN F10,
+repo commit 22e33a6).
 -/
 namespace NunavutVerif.Options
 open NunavutVerif.Crc32
@@ -141,7 +141,8 @@ theorem C17_documented_names_distinct (lang : Lang) :
 
 /-- Every documented option is `#define`d by the real support header and asserted by the real type header
 (observed by rendering the templates of the tree under check), and the four guard loops are a plain
-`for key, value in options.items()` without filter, `if`, `continue` or `break` (template AST). -/
+`for key, value in options.items()` without `if`, `continue` or `break` around the printing statement and without
+a loop filter other than the omit test `not nunavut.support.omit` (template AST). -/
 theorem C17_every_documented_option_guarded :
     (∀ lang, ∀ e ∈ Gen.domain lang, e.defined = true ∧ e.asserted = true) ∧
     Gen.guardLoopPlain.length = 4 ∧ (∀ p ∈ Gen.guardLoopPlain, p.2 = true) := by
@@ -156,11 +157,10 @@ theorem C17_every_documented_option_always_present (lang : Lang) : ∀ e ∈ Gen
   cases lang <;> decide +kernel
 
 /-- The omit case as the templates handle it (rendered with `--omit-serialization-support`): the model's `asserts`
-agrees with the observation — C still asserts (F10), C++ does not. -/
-theorem C17_pod_headers (name : String → String) (o : OptSet) :
-    Gen.assertsWhenOmitted .c = true ∧ Gen.assertsWhenOmitted .cpp = false ∧
-    asserts .c true name o = asserts .c false name o ∧ asserts .cpp true name o = some [] := by
-  refine ⟨by decide +kernel, by decide +kernel, rfl, rfl⟩
+agrees with the observation — neither language emits option assertions into POD headers (C since the F10 repair). -/
+theorem C17_pod_headers (lang : Lang) (name : String → String) (o : OptSet) :
+    Gen.assertsWhenOmitted lang = false ∧ asserts lang true name o = some [] := by
+  refine ⟨by cases lang <;> decide +kernel, rfl⟩
 
 /-! ## 3. documented option sets, both languages -/
 
@@ -237,6 +237,62 @@ theorem C17_compile_together_iff_identical (lang : Lang) (o₁ o₂ : OptSet)
     subst h
     exact C17_identical_accepted lang o₁ h₁
 
+/-- The built-in defaults of each language: documented option sets exist (hypotheses of T3 are satisfiable). -/
+def defaultsOf (dom : List DocOpt) : OptSet :=
+  dom.filterMap fun e => match e.always, e.values with
+    | true, v :: _ => some (e.key, v)
+    | _, _ => none
+
+/-! ## 3'. translation units with several type headers -/
+
+/-- A translation unit with any number of generated type headers — each generated with its own option set, in any
+include order, one header possibly including another — passes iff *every* header on its own is accepted against the
+support header: no header's check is waived because another header of the unit passed (or was seen first). -/
+theorem C17_tu_accepted_iff_every_header (lang : Lang) (pod : Bool) (name : String → String) (o₁ : OptSet)
+    (hs : List OptSet) :
+    acceptedTU lang pod name o₁ hs = true ↔ ∀ o ∈ hs, together lang pod name o₁ o = some [] := by
+  unfold acceptedTU
+  induction hs with
+  | nil => simp [togetherTU]
+  | cons o r ih =>
+    simp only [togetherTU, List.mem_cons, forall_eq_or_imp]
+    cases h1 : together lang pod name o₁ o with
+    | none =>
+      constructor
+      · intro h; simp at h
+      · intro h; simp at h
+    | some d =>
+      cases h2 : togetherTU lang pod name o₁ r with
+      | none =>
+        simp only [h2] at ih
+        constructor
+        · intro h; simp at h
+        · intro h; exact absurd (ih.mpr h.2) (by simp)
+      | some ds =>
+        simp only [h2] at ih
+        simp only [List.all_cons, Bool.and_eq_true, Option.some.injEq]
+        rw [ih, List.isEmpty_iff]
+
+/-- For documented option sets: the unit compiles iff every type header was generated with exactly the support
+header's option set — in particular a mismatching header is rejected wherever it stands in the include order. -/
+theorem C17_tu_documented_accepted_iff_all_identical (lang : Lang) (o₁ : OptSet) (hs : List OptSet)
+    (h₁ : Documented (Gen.domain lang) o₁) (h₂ : ∀ o ∈ hs, Documented (Gen.domain lang) o) :
+    acceptedTU lang false (nameOf (Gen.domain lang)) o₁ hs = true ↔ ∀ o ∈ hs, o = o₁ := by
+  rw [C17_tu_accepted_iff_every_header]
+  constructor
+  · intro h o ho
+    exact ((C17_compile_together_iff_identical lang o₁ o h₁ (h₂ o ho)).mp (h o ho)).symm
+  · intro h o ho
+    exact (C17_compile_together_iff_identical lang o₁ o h₁ (h₂ o ho)).mpr (h o ho).symm
+
+/-- The seeded scenario as a closed instance: first header matches the support header, a later one does not. -/
+example :
+    let o₁ := defaultsOf (Gen.domain .cpp)
+    let o₂ := o₁.map fun kv => if kv.1 = "target_endianness" then (kv.1, OptVal.str "little") else kv
+    togetherTU .cpp false (nameOf (Gen.domain .cpp)) o₁ [o₁, o₂] = some [[], [.mismatch "target_endianness"]] ∧
+    acceptedTU .cpp false (nameOf (Gen.domain .cpp)) o₁ [o₁, o₂] = false := by
+  decide +kernel
+
 /-! ## 4. CRC-32 -/
 
 /-- The bitwise model meets the standard check value of CRC-32/ISO-HDLC (zlib, binascii). -/
@@ -252,12 +308,6 @@ example : enc (.str "Any") = some 1556001108 ∧ enc (.int 123) = some 123 ∧ e
     enc .other = none := by decide +kernel
 example : crc32 [] = 0 ∧ crc32Str "é" = crc32 [0xC3, 0xA9] ∧ utf8 "€😀" = [0xE2, 0x82, 0xAC, 0xF0, 0x9F, 0x98, 0x80] := by
   decide +kernel
-
-/-- The built-in defaults of each language: documented option sets exist (hypotheses of T3 are satisfiable). -/
-def defaultsOf (dom : List DocOpt) : OptSet :=
-  dom.filterMap fun e => match e.always, e.values with
-    | true, v :: _ => some (e.key, v)
-    | _, _ => none
 
 example : Documented (Gen.domain .c) (defaultsOf (Gen.domain .c)) := by decide +kernel
 example : Documented (Gen.domain .cpp) (defaultsOf (Gen.domain .cpp)) := by decide +kernel
